@@ -31,7 +31,7 @@ m = {
         "guard": "kanal_verif",
         "enable": "RUSTFLAGS=\"--cfg kanal_verif\" (set in /verif/harness/.cargo/config.toml; rustc cfg, not a cargo feature)",
         "baseline_off_cmd": "cd /repo && cargo test --workspace --no-fail-fast --offline",
-        "source_commits": ["56cc9cd", "dbd65a7", "3baf280", "5bd2864"],
+        "source_commits": ["56cc9cd", "dbd65a7", "3baf280", "5bd2864", "90cac4a"],
         "add_only": True,
     },
     "engines": [
